@@ -159,15 +159,20 @@ def hg_ignored(lines, rel):
 
 
 def docker_ignored(lines, rel):
-    """Docker: patterns rooted at the context directory, last matching line wins, ! re-includes."""
+    """Docker (moby patternmatcher, MatchesOrParentMatches): patterns rooted at the context directory; a pattern
+    matches a path when it matches the path itself or one of its parent directories; the last matching line wins,
+    ! re-includes."""
     state = False
+    parts = rel.split("/")
+    prefixes = ["/".join(parts[:i]) for i in range(1, len(parts) + 1)]
     for ln in lines:
         if not ln.strip() or ln.startswith("#"):
             continue
         neg = ln.startswith("!")
         pat = ln[1:] if neg else ln
         pat = pat.strip("/")
-        if re.match("^" + glob_to_re(pat, True) + "$", rel):
+        rx = "^" + glob_to_re(pat, True) + "$"
+        if any(re.match(rx, p) for p in prefixes):
             state = not neg
     return state
 
@@ -303,13 +308,24 @@ def check(case):
                     anc_ignored = any(hg_ignored(case["lines"], a) for a in anc)
                 else:
                     anc_ignored = any(docker_ignored(case["lines"], a) for a in anc)
-            if not anc_ignored:
-                want = [p for p in U if p in cand and not omitted(cand[p])]
+            if True:
+                # a root that lies below an ignored directory: every entry has an ignored ancestor
+                want = [] if anc_ignored else [p for p in U if p in cand and not omitted(cand[p])]
+                if anc_ignored:
+                    out.classes.append("root-below-ignored-directory")
                 gotc = [p for p in got if p in cand or p not in rels]
                 cw, cg = collections.Counter(want), collections.Counter(gotc)
                 if cw != cg:
                     over = sorted((cw - cg).elements())      # ignored although it should be listed
                     under = sorted((cg - cw).elements())     # listed although it should be ignored
+                    if tool == "git" and under and anc_ignored and any(ln.startswith("!") for ln in case["lines"]):
+                        # known finding K03: root inside an excluded directory + a negation: libgit2 re-includes the file
+                        # although git cannot re-include below an excluded parent
+                        out.add("C20/git/under-ignore/negation-inside-excluded-directory", query=q, lines=case["lines"],
+                                wrongly_listed=[rels[p] for p in under][:6])
+                        under = []
+                        if not over:
+                            cw = cg
                     if tool == "git" and over:
                         # known finding: libgit2 drops a negated basename pattern that follows a directory-prefixed
                         # pattern (its does_negate_rule heuristic), git itself re-includes the entry
